@@ -59,7 +59,7 @@ def lines_for(spec, rep, want=("geom", "pic", "scale", "layout", "size")):
     for backend in ("svg", "tikz"):
         I._state["layers"] = []
         try:
-            with time_limit(120):
+            with time_limit(60):
                 tl = TG.construct(spec, backend)
                 docs[backend] = TG.export(tl)
             tls[backend] = tl
@@ -247,7 +247,7 @@ def body_c11(tier, seed, rep, only_prop=False, scale=1):
         degenerate = len({json.dumps(d["time"]) for d in spec["data"]}) == 1 and "domain" not in spec["options"]
         for backend in ("svg", "tikz"):
             try:
-                with time_limit(120):
+                with time_limit(60):
                     tl = TG.construct(spec, backend)
                     doc = TG.export(tl)
                 if degenerate and spec["kind"] != "time":
